@@ -50,6 +50,18 @@ def origins(body, op, depth=0, seen=None, fieldpath=()):
         real = {x for x in res if not (x[0] == "call" and str(x[1]).endswith("::from_residual"))}
         if real:
             res = real
+        # likewise a literal `None` (the `_ => None` arm of an inlined Option-returning helper) carries no value
+        def is_none(x):
+            if x[0] != "agg" or not str(x[1]).endswith("option::Option") or not isinstance(x[2], int):
+                return False
+            for st in body.blocks[x[2]]["s"]:
+                ag = (st.get("rv") or {}).get("agg")
+                if isinstance(ag, dict) and str(ag.get("adt", "")).endswith("option::Option"):
+                    return ag.get("variant") == "None"
+            return False
+        real = {x for x in res if not is_none(x)}
+        if real and len(real) < len(res):
+            res = real
     return res
 
 
